@@ -2,7 +2,7 @@
 # usage: tools/mutant_run.sh <patch.diff> <check id> [extra ./check args]
 # Applies a seeded change to a scratch worktree of /repo HEAD (outside /repo and /verif), runs the
 # check against it (VERIF_REPO), prints the verdict and removes the worktree again.
-patch="$1"; id="$2"; shift 2
+patch="$(realpath "$1")"; id="$2"; shift 2
 wt="/tmp/mw/$(basename "$(dirname "$patch")")-$$"
 mkdir -p /tmp/mw
 git -C /repo worktree add --detach "$wt" HEAD >/dev/null 2>&1 || exit 3
